@@ -1,5 +1,5 @@
 SPEC_PART = dict(
     props_file="C13_theta",
     legs=[dict(family="theta", focus="foreign", oracles=["foreign_ok"], profiles=["debug", "release"],
-               mask=[7, 12, 13], n_quick=60, n_thorough=600, panic_is_violation=True)],
+               mask=[7, 12, 13, 15], n_quick=60, n_thorough=600, panic_is_violation=True)],
     trusted=[], assumptions=[], covers="theta: TBD")
